@@ -229,6 +229,10 @@ def run(ctx):
                           {"source": src, "address": emit, "ext_word_address": xa, "word": x}, expected=t % 65536, observed=int(ans))
     ctx.extra["spec_ea_checks"] = len(reqs)
 
+    # ---- targets that are labels: in the same file, in other linked files, in including and included files
+    from . import worlds
+    worlds.stream_reach(ctx, ctx.rng("c04-worlds"), 1500 if ctx.thorough else 300, impl)
+
 
 def search(ctx, broken):
     if not ctx.thorough:
